@@ -27,9 +27,32 @@ inductive Acc where
   | beyond                      -- outside the modelled domain
   deriving DecidableEq, Repr, Inhabited
 
-/-- a class attribute (bound method, type object, docstring, …) reached by name:
-    the model knows *that* it is reached, not what it is -/
+/-- a class attribute whose value is computed by a C-level descriptor the model
+    does not describe (`__dict__`, `__weakref__`, `int.real`, …): the model knows
+    *that* it is reached, not what it is -/
 def opaqueVal : Val := .sent "opaque"
+
+/-- how a value identifies itself as the receiver of a bound method -/
+def recvKey : Val → String
+  | .ref a => "r" ++ toString a
+  | .int i => "i" ++ toString i
+  | .bool b => if b then "b1" else "b0"
+  | .none => "n"
+  | .str s => "s" ++ s
+  | _ => "?"
+
+/-- **the identity of a class attribute reached by name** (`kind` is how the class
+    stores it, `owner` the class of the MRO that defines it, `cls` the receiver's
+    class): a method is the bound method *of this receiver*, a classmethod is bound
+    to the receiver's class, a builtin static (`__new__`) to the class `extra`, a
+    constant is the very object in `owner.__dict__`, `__class__` is the class. -/
+def attrToken (kind extra owner cls : String) (cur : Val) (n : String) : Val :=
+  if kind == "method" then .sent ("bm|" ++ recvKey cur ++ "|" ++ n)
+  else if kind == "clsmethod" then .sent ("cm|" ++ cls ++ "|" ++ n)
+  else if kind == "static" then .sent ("cm|" ++ extra ++ "|" ++ n)
+  else if kind == "const" then .sent ("ca|" ++ owner ++ "|" ++ n)
+  else if kind == "class" then .sent ("ty|" ++ cls)
+  else opaqueVal
 
 /-- what a class-level hook (property getter, `__getattr__`, `__missing__`) does -/
 inductive Behav where
@@ -43,9 +66,11 @@ inductive Behav where
 structure ClsInfo where
   fields : List String := []              -- namedtuple `_fields`: field i ↦ item i
   props : List (String × Behav) := []     -- data descriptors defined by this class
-  attrs : List String := []               -- other names in the class's own `__dict__`
+  attrs : List (String × String × String) := []   -- other names in the class's own `__dict__`: (name, kind, extra)
   fallback : Option Behav := none         -- `__getattr__`
   missing : Option Behav := none          -- `__missing__`
+  logA : Bool := false                    -- instances log every public attribute read (`__getattribute__`)
+  logI : Bool := false                    -- instances log every subscription (`__getitem__`)
   deriving Repr, Inhabited
 
 /-- tables read off the running interpreter -/
@@ -53,7 +78,7 @@ structure PyRt where
   spaces : List Nat                       -- code points `int()` strips as whitespace
   zeros : List Nat                        -- code point of DIGIT ZERO of every Unicode decimal block
   maxDigits : Nat                         -- `sys.get_int_max_str_digits()` (0 = no limit)
-  builtinAttrs : List (String × List String)   -- builtin class ↦ names in its own `__dict__`
+  builtinAttrs : List (String × List (String × String × String))   -- builtin class ↦ its own `__dict__`: (name, kind, extra)
   deriving Repr, Inhabited
 
 structure KEnv where
@@ -140,14 +165,23 @@ def assocGet {β} (l : List (String × β)) (n : String) : Option β :=
   | some (_, b) => some b
   | none => none
 
-/-- is `n` an attribute defined by some class of the MRO (and not modelled as a
-    property / field / slot)? -/
-def KEnv.hasClassAttr (k : KEnv) (cls n : String) : Bool :=
-  (k.ct.mro cls).any (fun c =>
-    (k.infoOf c).attrs.contains n ||
-    (match assocGet k.rt.builtinAttrs c with
-     | some ns => ns.contains n
-     | none => false))
+def findAttr (l : List (String × String × String)) (n : String) : Option (String × String) :=
+  match l.find? (·.1 == n) with
+  | some (_, ke) => some ke
+  | none => none
+
+/-- the class of the MRO that defines the attribute `n` (not modelled as a property /
+    field / slot), and how it stores it: `(owner, kind, extra)` -/
+def KEnv.classAttr (k : KEnv) (cls n : String) : Option (String × String × String) :=
+  (k.ct.mro cls).findSome? (fun c =>
+    match findAttr (k.infoOf c).attrs n with
+    | some ke => some (c, ke)
+    | none =>
+      match assocGet k.rt.builtinAttrs c with
+      | some l => (findAttr l n).map (fun ke => (c, ke))
+      | none => none)
+
+def KEnv.hasClassAttr (k : KEnv) (cls n : String) : Bool := (k.classAttr cls n).isSome
 
 /-- values the kernel describes -/
 def modelled (h : Heap) : Val → Bool
@@ -262,7 +296,10 @@ def pyGetattr2 (k : KEnv) (h : Heap) (cur name : Val) : Acc :=
       | none =>
         match instAttr h cur n with
         | some v => .ok v
-        | none => if k.hasClassAttr cls n then .ok opaqueVal else fb
+        | none =>
+          match k.classAttr cls n with
+          | some (owner, kind, extra) => .ok (attrToken kind extra owner cls cur n)
+          | none => fb
   | .none | .bool _ | .int _ | .ref _ => .err (exc "TypeError")   -- attribute name must be string
   | _ => .beyond
 
@@ -271,5 +308,29 @@ def pySeqGet2 (k : KEnv) (h : Heap) (cur seg : Val) : Acc :=
   match pyInt2 k.rt h seg with
   | .ok i => pyGetitem2 k h cur i
   | a => a
+
+/-! ### what the access-logging classes of the catalogue record
+
+  A class with `logA` logs the instance on every read of a public attribute
+  (its `__getattribute__` runs first, whatever the outcome); a class with `logI`
+  logs on every subscription (its `__getitem__`).  `int(seg)` runs before the
+  subscription, so a segment `int()` rejects never reaches the container. -/
+
+def startsUnderscore (n : String) : Bool := n.toList.head? == some '_'
+
+def attrLog (k : KEnv) (h : Heap) (cur name : Val) : List Nat :=
+  match cur, name with
+  | .ref a, .str n => if (k.infoOf (cur.clsName h)).logA && !startsUnderscore n then [a] else []
+  | _, _ => []
+
+def itemLog (k : KEnv) (h : Heap) (cur : Val) : List Nat :=
+  match cur with
+  | .ref a => if (k.infoOf (cur.clsName h)).logI then [a] else []
+  | _ => []
+
+def seqLog (k : KEnv) (h : Heap) (cur seg : Val) : List Nat :=
+  match pyInt2 k.rt h seg with
+  | .ok _ => itemLog k h cur
+  | _ => []
 
 end Glom.C01
